@@ -7,6 +7,7 @@ package main
 // mutation must act on words this function allocated since the last time the value was shared.
 
 import (
+	"sort"
 	"fmt"
 	"go/ast"
 	"go/token"
@@ -88,11 +89,64 @@ func ruleFreshBitmasks(p *Prog, r *Res, rule string, pkgs []string, floor int) {
 	for _, s := range pkgs {
 		want[s] = true
 	}
+	// loop-private accumulators, derived: bitmask-valued fields of Manager that are only ever assigned the empty
+	// literal (reset) — their words are allocated by the in-place mutators applied to the field itself, so they are
+	// unshared as long as no alias of the field escapes (the accumulator obligations below).
 	accum := map[*types.Var]bool{}
-	for _, n := range []string{"updatedStreamsDuringTaggingJob", "resetStreamsDuringTaggingJob", "addedStreamsDuringTaggingJob"} {
-		if v := p.Field("manager", "Manager", n); v != nil {
-			accum[v] = true
+	if mt := p.Named("manager", "Manager"); mt != nil {
+		st := mt.Underlying().(*types.Struct)
+		cand := map[*types.Var]int{} // field -> number of resets seen; -1 = disqualified
+		for i := 0; i < st.NumFields(); i++ {
+			if isBitmaskNamed(st.Field(i).Type()) {
+				cand[st.Field(i)] = 0
+			}
 		}
+		for _, f := range p.FnList {
+			if f.Short != "manager" || f.Body() == nil {
+				continue
+			}
+			info := f.Pkg.TypesInfo
+			inspectShallow(f.Body(), func(x ast.Node) bool {
+				as, ok := x.(*ast.AssignStmt)
+				if !ok {
+					return true
+				}
+				for i, l := range as.Lhs {
+					se, ok := ast.Unparen(l).(*ast.SelectorExpr)
+					if !ok {
+						continue
+					}
+					fv, ok := info.Uses[se.Sel].(*types.Var)
+					if !ok {
+						continue
+					}
+					if _, isCand := cand[fv]; !isCand || cand[fv] < 0 {
+						continue
+					}
+					empty := false
+					if len(as.Rhs) == len(as.Lhs) {
+						if cl, ok := ast.Unparen(as.Rhs[i]).(*ast.CompositeLit); ok && len(cl.Elts) == 0 {
+							empty = true
+						}
+					}
+					if empty {
+						cand[fv]++
+					} else {
+						cand[fv] = -1
+					}
+				}
+				return true
+			})
+		}
+		var names []string
+		for fv, n := range cand {
+			if n > 0 {
+				accum[fv] = true
+				names = append(names, fv.Name())
+			}
+		}
+		sort.Strings(names)
+		r.Note("%s: loop-private accumulators (Manager bitmask fields only ever assigned the empty literal): %v", rule, names)
 	}
 	nMut := 0
 	for _, f := range p.FnList {
@@ -172,6 +226,24 @@ func ruleFreshBitmasks(p *Prog, r *Res, rule string, pkgs []string, floor int) {
 						for _, l := range pn.Lhs {
 							if l == ast.Expr(se) {
 								okUse, why = true, "assignment target"
+							}
+						}
+						// move: `local := mgr.F` immediately followed by `mgr.F = bitmask.LongBitmask{}` — the local takes
+						// over the old words, the field starts afresh
+						if !okUse && len(parents) >= 2 {
+							if blk, isBlk := parents[len(parents)-2].(*ast.BlockStmt); isBlk {
+								for i, st := range blk.List {
+									if st != ast.Stmt(pn) || i+1 >= len(blk.List) {
+										continue
+									}
+									if nx, isAs := blk.List[i+1].(*ast.AssignStmt); isAs && len(nx.Lhs) == 1 && len(nx.Rhs) == 1 {
+										if s3, isSel := ast.Unparen(nx.Lhs[0]).(*ast.SelectorExpr); isSel && info.Uses[s3.Sel] == types.Object(fv) {
+											if cl, isLit := ast.Unparen(nx.Rhs[0]).(*ast.CompositeLit); isLit && len(cl.Elts) == 0 {
+												okUse, why = true, "moved into a local: the field is reset to the empty mask in the next statement"
+											}
+										}
+									}
+								}
 							}
 						}
 					case *ast.CallExpr:
